@@ -343,7 +343,9 @@ class Agent(dbus.service.Object):
             ctr = self._fwd_queue.pop(0)
 
             # copy the lists, removal edits them
-            for blk in list(ctr.block_type(PreviousNodeBlock)):
+            # by type code: a block whose node ID is not readable here
+            # (an EID scheme unknown to this node) is replaced too
+            for blk in list(ctr.block_type(6)):
                 ctr.remove_block(blk)
             ctr.add_block(CanonicalBlock() / PreviousNodeBlock(node=self._config.node_id))
 
